@@ -152,8 +152,8 @@ def inv_6502(st):
 
 
 INVARIANT = {"tms1000": inv_tms1000, "8008": inv_8008, "lc3": lambda st: [], "6502": inv_6502, "tms9900": lambda st: [],
-             "ebpf": lambda st: []}
-MEM_LIMIT = {"tms1000": 0x400, "8008": 0x10000, "lc3": 0x20000, "6502": 0x10000, "tms9900": 0x10000, "ebpf": 0}
+             "ebpf": lambda st: [], "1802": lambda st: [k for k in ("p", "x") if int(st[k], 16) > 15]}
+MEM_LIMIT = {"tms1000": 0x400, "8008": 0x10000, "lc3": 0x20000, "6502": 0x10000, "tms9900": 0x10000, "ebpf": 0, "1802": 0x10000}
 # tms1000 never writes simulated memory: its limit is only used for "cells not given must stay absent"
 
 # ---- 6502 -----------------------------------------------------------------------------------
@@ -212,4 +212,43 @@ def ebpf_lines(rng, per_opcode):
     return lines, {"first_bytes": 256}
 
 
-GENERATORS = {"tms9900": tms9900_lines, "ebpf": ebpf_lines, "tms1000": tms1000_lines, "8008": i8008_lines, "lc3": lc3_lines, "6502": m6502_lines}
+# ---- 1802 -----------------------------------------------------------------------------------
+def c1802_lines(rng, per_opcode):
+    """all 256 opcodes (0x68: the second byte sampled over all 256 too) x per_opcode states: P and X at 0 / 15 / equal / aliasing N,
+    R(P), R(X), R(N) at 0 / 0xffff / 0x00ff / 0xff00, D and the flags at 0 / 1 / 0x80 / 0xff (SHL leaves DF = 0x80), counter at 0 / 1,
+    ETQ 0 / 1, armed break_io on the written address"""
+    lines, strata = [], set()
+    ops = [(o, None) for o in range(256)] + [(0x68, e) for e in range(256)]
+    for opcode, ext in ops:
+        for i in range(per_opcode if ext is None else max(1, per_opcode // 4)):
+            edge = i < 4
+            n = opcode & 15
+            p = rng.choice([0, 15, n, (n + 1) & 15]) if edge else rng.randrange(16)
+            x = rng.choice([0, 15, n, p]) if edge else rng.randrange(16)
+            r = [rng.choice([0, 0xffff, 0x00ff, 0xff00, 0xfffe, 1, rng.getrandbits(16)]) for _ in range(16)]
+            pc = r[p]
+            mem = {}
+            for k in range(1, 4):
+                mem[pc + k] = rng.choice([0, 0xff, rng.getrandbits(8)])          # unmasked (READ_RAM(PC + 1) is an int)
+                mem.setdefault((pc + k) & 0xffff, rng.choice([0, 0xff, rng.getrandbits(8)]))
+            if ext is not None:
+                mem[pc + 1] = ext
+                mem[(pc + 1) & 0xffff] = ext
+            for a in set([r[x], (r[x] + 1) & 0xffff, (r[x] + 2) & 0xffff, r[n], (r[n] + 1) & 0xffff, r[2]]):
+                mem.setdefault(a, rng.choice([0, 0xff, 0x99, rng.getrandbits(8)]))
+            mem[pc] = opcode
+            fl = lambda: rng.choice([0, 1, 1, 0x80, 0xff])
+            st = [("d", rng.choice([0, 0xff, 0x80, 0x99, 0x0a, rng.getrandbits(8)])), ("p", p), ("x", x), ("t", rng.getrandbits(8)),
+                  ("n", rng.randrange(16)), ("i", rng.randrange(16)), ("b", rng.getrandbits(8)),
+                  ("cntr", rng.choice([0, 1, 2, 0xff])), ("cn", rng.getrandbits(8)), ("df", fl()), ("q", rng.choice([0, 1])),
+                  ("mie", rng.choice([0, 1])), ("cie", rng.choice([0, 1])), ("xie", rng.choice([0, 1])), ("cil", rng.choice([0, 1])),
+                  ("etq", rng.choice([0, 1, 0xbe]))] + common(rng)
+            if not edge and rng.randrange(8) == 0:
+                st.append(("bio", rng.choice([r[x], r[n], (r[x] - 1) & 0xffff, r[2]])))
+            st.append(("r", hexarr(r, 4)))
+            lines.append("simx 1802 %s %s" % (kv(st), cells(mem)))
+            strata.add((opcode, ext, p == x))
+    return lines, {"opcodes": 256, "extended_second_bytes": 256, "strata(opcode,ext,p==x)": len(strata)}
+
+
+GENERATORS = {"1802": c1802_lines, "tms9900": tms9900_lines, "ebpf": ebpf_lines, "tms1000": tms1000_lines, "8008": i8008_lines, "lc3": lc3_lines, "6502": m6502_lines}
